@@ -46,6 +46,17 @@ def build_plan(tier, nruns=None):
             for t in tps:
                 plan.append(("firstuse", t.kind, rep != 1))
         nrand = 30000 if nruns is None else max(0, nruns - len(plan))
+    if tier == "quick":
+        pr = random.Random(777)
+        for i in range(24):
+            plan.append(("cold", None, bool(i % 2)))
+        for i in range(8):
+            plan.append(("cold-order", pr.randrange(720), False))
+    else:
+        for i in range(160):
+            plan.append(("cold", None, bool(i % 2)))
+        for i in range(720):
+            plan.append(("cold-order", i, False))
     mix = [("random-light", 46), ("random-medium", 24), ("random-heavy", 6),
            ("crosscurve", 10), ("evict", 8), ("samekind-rand", 6)]
     names = [m for m, _ in mix]
@@ -60,7 +71,7 @@ def build_plan(tier, nruns=None):
 
 def make_spec(server, seed, index, tier, entry):
     rng = derive_rng(seed, index)
-    g = G.Scenarios(rng, server, tier)
+    g = G.ColdScenarios(rng, server, tier)
     scen, param, faults = entry
     thorough = tier == "thorough"
     if scen == "samekind":
@@ -70,6 +81,10 @@ def make_spec(server, seed, index, tier, entry):
     elif scen == "samekind-rand":
         spec = g.scn_samekind(rng.choice([t for t in G.TEMPLATES if t.cost < 150]),
                               faults=faults)
+    elif scen == "cold":
+        spec = g.scn_cold(faults=faults)
+    elif scen == "cold-order":
+        spec = g.scn_cold_order(param)
     elif scen == "crosscurve":
         spec = g.scn_crosscurve(faults=faults)
     elif scen == "evict":
@@ -160,6 +175,9 @@ def coverage_of(spec, res):
 
 def execute(server, spec, want_cov=True):
     """model pass + simulated run + judgement"""
+    if str(spec.get("scenario", "")).startswith("cold"):
+        from . import cold
+        return cold.execute_cold(server, spec)
     t0 = time.monotonic()
     m = server.model_pass(spec)
     t1 = time.monotonic()
@@ -225,7 +243,8 @@ def handle_violation(server, out, replay_dir, seed, index, shrink_budget_s=150):
     doc["violation"]["kind"] = v0["kind"]
     doc["shrink"] = {"steps": steps, "seconds": round(time.monotonic() - t0, 1),
                      "reproduced_after_shrink": bool(av)}
-    doc["server"] = dict(server.variant)
+    if not str(doc.get("scenario", "")).startswith("cold"):
+        doc["server"] = dict(server.variant)
     os.makedirs(replay_dir, exist_ok=True)
     name = "C20-%d-%d.json" % (seed, index)
     path = os.path.join(replay_dir, name)
@@ -270,6 +289,13 @@ def compact_sample(m, out):
     }
 
 
+def _safe(f):
+    try:
+        return f()
+    except Exception as e:  # inventory is informational
+        return {"error": repr(e)}
+
+
 def main():
     job = json.load(sys.stdin)
     seed, tier = int(job["seed"]), job["tier"]
@@ -291,6 +317,10 @@ def main():
                       "snapshot_keys": server.base["public"][0],
                       "snapshot_full": server.snapshot_digest("full"),
                       "modules": C.pyecc_modules(),
+                      "uncatalogued": _safe(lambda: __import__(
+                          "sim.inventory", fromlist=["x"]).uncatalogued()),
+                      "write_sites": _safe(lambda: __import__(
+                          "sim.inventory", fromlist=["x"]).write_sites()),
                       "start_s": round(time.monotonic() - t_start, 2)}))
     sys.stdout.flush()
     deadline = job.get("deadline_s")
@@ -360,6 +390,17 @@ def main():
             line["replay"] = path
             line["reproduced"] = True
         print(json.dumps(line))
+        sys.stdout.flush()
+    for index in job.get("recheck") or []:
+        if deadline is not None and time.monotonic() - t_start > deadline:
+            break
+        try:
+            spec = make_spec(server, seed, index, tier, plan[index])
+            out = execute(server, spec, want_cov=False)
+            print(json.dumps({"type": "rerun", "index": index,
+                              "records_digest": out.get("records_digest")}))
+        except Exception:
+            print(json.dumps({"type": "rerun", "index": index, "records_digest": None}))
         sys.stdout.flush()
     print(json.dumps({"type": "bye", "server_stats": server.stats,
                       "wall_s": round(time.monotonic() - t_start, 2)}))
